@@ -6,7 +6,10 @@ use std::collections::hash_map::Entry as HEntry;
 use std::collections::{BTreeMap, HashMap, HashSet};
 use std::sync::Arc;
 
+#[cfg(not(prometheus_verif))]
 use parking_lot::RwLock;
+#[cfg(prometheus_verif)]
+use crate::verif_sync::RwLock;
 
 use crate::desc::{is_valid_label_name, is_valid_metric_name};
 use crate::errors::{Error, Result};
